@@ -49,6 +49,7 @@ impl Q32E2 {
             && self.3 == 0
             && self.4 == 0
             && self.5 == 0
+            && self.6 == 0
             && self.7 == 0
     }
 
@@ -60,6 +61,7 @@ impl Q32E2 {
             && self.3 == 0
             && self.4 == 0
             && self.5 == 0
+            && self.6 == 0
             && self.7 == 0
     }
 
